@@ -513,6 +513,9 @@ pub fn enabled(w: &World, pre: &PuObs, alpha: Alpha) -> Vec<PuOp> {
             if full {
                 ops.push(PuOp::Provide { u: A, pool: id.into(), funds: vec![(d(0).into(), 100_001)], lock: None, lock_id: None, recv: None, liq_slip: None, swap_slip: None });
                 ops.push(sw(A, id, d(0), 1000, d(1), Some(5000), None));
+                // first deposits that must be refused: too small to leave the locked minimum, all assets but one
+                ops.push(PuOp::Provide { u: A, pool: id.into(), funds: assets.iter().map(|c| (c.denom.clone(), 10u128)).collect(), lock: None, lock_id: None, recv: None, liq_slip: None, swap_slip: None });
+                ops.push(PuOp::Provide { u: A, pool: id.into(), funds: assets.iter().skip(1).map(|c| (c.denom.clone(), 3_000_000u128)).collect(), lock: None, lock_id: None, recv: None, liq_slip: None, swap_slip: None });
             }
         }
     }
@@ -578,6 +581,8 @@ pub fn enabled(w: &World, pre: &PuObs, alpha: Alpha) -> Vec<PuOp> {
                 }
             }
             ops.push(PuOp::Withdraw { u: A, pool: id.clone(), funds: vec![(d0.clone(), 1000)] });
+            // a deposit carrying a denom the pool does not hold
+            ops.push(PuOp::Provide { u: A, pool: id.clone(), funds: vec![(d0.clone(), 1000), ("uweth".into(), 1000)], lock: None, lock_id: None, recv: None, liq_slip: None, swap_slip: None });
         }
         // owner operations
         if let Some(p) = pre.pools.first() {
